@@ -37,9 +37,22 @@ class FixAssertTupleTransform(LibcstResultTransformer, NameResolutionMixin):
 
     def _make_asserts(self, node: cst.Assert) -> List[cst.SimpleStatementLine]:
         return [
-            cst.SimpleStatementLine(body=[cst.Assert(test=element.value, msg=node.msg)])
+            cst.SimpleStatementLine(
+                body=[cst.Assert(test=self._standalone(element.value), msg=node.msg)]
+            )
             for element in node.test.elements
         ]
+
+    def _standalone(self, expr: cst.BaseExpression) -> cst.BaseExpression:
+        # Inside the tuple's parentheses an element may be a walrus or span
+        # several lines; as the test of its own assert it needs parentheses
+        if not expr.lpar and (
+            isinstance(expr, cst.NamedExpr) or "\n" in self.code(expr).strip()
+        ):
+            return expr.with_changes(
+                lpar=[cst.LeftParen()], rpar=[cst.RightParen()]
+            )
+        return expr
 
     def _report_new_lines(
         self, original_node: cst.SimpleStatementLine, newlines_count: int
